@@ -97,6 +97,17 @@ def gen_cases(tier, seed, shard, nshards):
                     continue
                 yield {"id": "undef/%s/%s" % (mn, opnd), "mode": "reject", "form": "undefined-symbol",
                        "lines": [" ORG $1000\n", "DEF NOP\n", " %s %s\n" % (mn, opnd), " RTS\n"]}
+        # ... and in every directive that takes a value (an origin, a direct page or an entry point that names nothing is no less undefined)
+        for stmt in ("FCB UNDEF", "FDB UNDEF", "RMB UNDEF", "FCB 1,UNDEF", "FDB UNDEF,2", "FCB UNDEF+1", "FDB 1,DEF-UNDEF", "SETDP UNDEF", "SETDP UNDEF/256",
+                     "END UNDEF", "END UNDEF+1", "END DEF+UNDEF"):
+            yield {"id": "undef/dir/%s" % stmt, "mode": "reject", "form": "undefined-symbol",
+                   "lines": [" ORG $1000\n", "DEF NOP\n", " %s\n" % stmt, " RTS\n"]}
+        for stmt in ("X1 EQU UNDEF", "X1 EQU UNDEF+1", "X1 EQU 2*UNDEF"):
+            yield {"id": "undef/dir/%s" % stmt, "mode": "reject", "form": "undefined-symbol",
+                   "lines": [" ORG $1000\n", "DEF NOP\n", "%s\n" % stmt, " LDA #X1\n"]}
+        for opnd in ("UNDEF", "UNDEF+1", "K+UNDEF", "256*UNDEF"):
+            yield {"id": "undef/org/%s" % opnd, "mode": "reject", "form": "undefined-symbol",
+                   "lines": ["K EQU 2\n", " ORG %s\n" % opnd, "DEF NOP\n", " RTS\n"]}
         for mn in ("BRA", "LBRA", "BSR", "LBEQ", "BNE"):
             yield {"id": "undef/%s" % mn, "mode": "reject", "form": "undefined-symbol",
                    "lines": [" ORG $1000\n", "DEF NOP\n", " %s UNDEF\n" % mn, " RTS\n"]}
